@@ -155,6 +155,32 @@ def enc_container(v):
     return ";".join(out)
 
 
+def pure_obs(kind, v):
+    """outcome pattern of the real conversion primitive on its own (no flow state involved): int(), str().encode(...),
+    or the `for header in v: headers.add(*_str_pair(header))` loop on a fresh Headers object"""
+    from mitmproxy import http
+    from mitmproxy.tools.web import app
+    try:
+        if kind == "int": int(v)
+        elif kind == "utf8": str(v).encode("utf-8", "surrogateescape")
+        elif kind == "latin1": str(v).encode("ISO-8859-1")
+        else:
+            pair = getattr(app, "_str_pair", lambda h: h)
+            h, pat = http.Headers(), "+"
+            try:
+                it = iter(v)
+            except TypeError:
+                return pat + "-"
+            for e in it:
+                try: h.add(*pair(e))
+                except Exception: return pat + "-"
+                pat += "+"
+            return pat
+    except Exception:
+        return "-"
+    return "+"
+
+
 class St:
     """one primitive setter step: the thunk, the field it writes and the kind of write (set / clear / add)"""
     def __init__(self, fn, field, kind): self.fn, self.field, self.kind = fn, field, kind
@@ -245,10 +271,12 @@ class Check(PropertyCheck):
                   "snapshot is a value, in-place edits cannot disturb it). Tied to the real tornado handler by differential sessions of 1-3 PUTs: status, "
                   "commit/rollback, backup, the predicted content of all 17 fields AND the predicted success/failure pattern "
                   "of every port / code / headers / trailers key (driver op `conv`) are compared.")
-    level_note = ("whether a primitive setter call succeeds is PREDICTED by the model for port, code, headers, trailers (the classes "
-                  "the statement names) and for method / scheme / path / http_version / reason given as JSON scalars; it is still an "
-                  "observed input per case (reference replay) for host, content and for container values of string fields (idna, "
-                  "charset fallback, repr of containers); the VALUE a successful write leaves is symbolic in the model (effect id) and resolved by "
+    level_note = ("the CONVERSIONS behind port, code, headers, trailers (the classes the statement names: int(), _str_pair + "
+                  "Headers.add, the iteration) and behind method / scheme / path / http_version / reason given as JSON scalars are "
+                  "transcribed and tied to the real primitives on their own (driver op `conv`); whether the whole setter STEP succeeds "
+                  "is still an observed input per case (reference replay) - besides the conversion it can fail through the flow's "
+                  "state (the port setter rewrites the Host header, which fails when an earlier edit stored an un-encodable host: "
+                  "found by the thorough run) - as are host, content and container values of string fields; the VALUE a successful write leaves is symbolic in the model (effect id) and resolved by "
                   "the harness to the value recorded for that effect, so the model predicts WHICH write determines each field, not "
                   "the conversion itself; side effects of library setters on other fields (Host / Content-Length / Content-Type "
                   "lines rewritten by host, port and content setters) are outside the model and masked in the comparison. "
@@ -467,13 +495,15 @@ class Check(PropertyCheck):
                                         not (a == "request" and k == "code") and not (a == "response" and k == "port"):
                                     v = doc[a][k]
                                     conv.append(("conv int " + enc_scalar(v)) if k in ("port", "code") else ("conv hdr " + enc_container(v)))
-                                    conv_obs.append("".join(ch for ch in pat if ch in "+-"))
+                                    # the conversion on its own: the setter behind it (e.g. the Host-header update of the port
+                                    # setter) may fail for reasons of the flow's state, which stays an observed step outcome
+                                    conv_obs.append(pure_obs("int" if k in ("port", "code") else "hdr", v))
                                 elif not was_failed and present and not isinstance(doc[a][k], (list, dict)) and (
                                         (a == "request" and k in ("method", "scheme", "path", "http_version")) or
                                         (a == "response" and k in ("http_version", "reason"))):
                                     # str(v) of a JSON scalar, then always_bytes(..., utf-8/surrogateescape) - latin-1 for the reason
                                     conv.append(("conv latin1 " if k == "reason" else "conv utf8 ") + enc_scalar(doc[a][k]))
-                                    conv_obs.append("".join(ch for ch in pat if ch in "+-"))
+                                    conv_obs.append(pure_obs("latin1" if k == "reason" else "utf8", doc[a][k]))
                         toks.append("}")
                         if not dispatched: failed = True      # falls through to "Unknown update request: ..."
             all_state = snap(scratch)["state"] if not failed else None
